@@ -231,3 +231,18 @@ Example C02_heap_nonvacuous :
   | None => False
   end.
 Proof. vm_compute. repeat split. Qed.
+
+(* The harness dimension "concurrent build" (script fields cbk, cbt: while the
+   cbk-th event is handled another thread calls Builder::start_time(cbt).build())
+   is invisible to a runtime whose simulation lock is taken before the
+   process-global clock is touched: the three models (over the specification,
+   over the calendar queue, over the heap backend) do not look at the fields.
+   The differential check therefore demands that the real runtime prints the
+   same with and without the intruding thread. *)
+Theorem C02_concurrent_build_irrelevant :
+  forall (n t u s b k x k' x' : N) (r : list N),
+  run_gen repaired (n :: t :: u :: s :: b :: k :: x :: r) = run_gen repaired (n :: t :: u :: s :: b :: k' :: x' :: r) /\
+  run_gen_cq repaired (n :: t :: u :: s :: b :: k :: x :: r) = run_gen_cq repaired (n :: t :: u :: s :: b :: k' :: x' :: r) /\
+  hrun (n :: t :: u :: s :: b :: k :: x :: r) = hrun (n :: t :: u :: s :: b :: k' :: x' :: r).
+Proof. intros. split; [reflexivity|]. split; reflexivity. Qed.
+Print Assumptions C02_concurrent_build_irrelevant.
